@@ -589,6 +589,10 @@ impl nervusdb_query::WriteableGraph for WriteTxn<'_> {
             .map_err(|e| nervusdb_query::Error::Other(e.to_string()))
     }
 
+    fn fresh_external_id(&mut self, hint: ExternalId) -> ExternalId {
+        self.inner.fresh_external_id(hint)
+    }
+
     fn add_node_label(
         &mut self,
         node: InternalNodeId,
